@@ -253,6 +253,56 @@ def K17_elimination_bounds(rep, flow: Flow, fqs=("f2_algebra.rref", "f2_algebra.
                                 ("the last row / column is never a pivot row / column" if excl < 0 else "the cursor runs past the matrix") + f" [while {ast.unparse(w.test)}]")
 
 
+def K17_column_sweep(rep, flow: Flow, fqs=("f2_algebra.rref", "f2_algebra.rref_and_basis_change", "f2_algebra.rank", "f2_algebra.null_space")):
+    """(a) a loop whose variable is used as COLUMN index of a matrix and that stops at min(rows, cols) never looks at the
+    columns from `rows` on of a matrix with more columns than rows (a pivot there is missed) - unless another loop of the
+    function also runs over column indices; (b) the rank is not the trace / diagonal sum of the reduced matrix (pivots of a
+    reduced row echelon form need not sit on the diagonal)"""
+    rep.rule("K17b", "no elimination sweeps its column index only up to min(rows, cols); the rank is not read off the diagonal of the reduced matrix", floor=0)
+    for fq in fqs:
+        try:
+            f = flow.prog.func(fq)
+        except AnalysisError:
+            continue
+        dims = set()
+        for n in ast.walk(f.node):
+            if isinstance(n, ast.Assign) and isinstance(n.targets[0], ast.Tuple) and isinstance(n.value, ast.Attribute) and n.value.attr == "shape":
+                dims |= {x.id for x in n.targets[0].elts if isinstance(x, ast.Name)}
+
+        def is_min_dims(e):
+            return isinstance(e, ast.Call) and isinstance(e.func, (ast.Name, ast.Attribute)) and ast.unparse(e.func) in ("min", "np.minimum", "numpy.minimum") and len(e.args) == 2 and \
+                all(isinstance(a, ast.Name) and a.id in dims for a in e.args) and e.args[0].id != e.args[1].id
+
+        def col_uses(var, scope):
+            return [s_ for s_ in ast.walk(scope) if isinstance(s_, ast.Subscript) and isinstance(s_.slice, ast.Tuple) and len(s_.slice.elts) == 2 and
+                    any(isinstance(x, ast.Name) and x.id == var for x in ast.walk(s_.slice.elts[1]))]
+        loops = []      # (node, variable, bounded by min?)
+        for lp in [x for x in ast.walk(f.node) if isinstance(x, ast.For) and isinstance(x.target, ast.Name)]:
+            it = lp.iter
+            if isinstance(it, ast.Call) and isinstance(it.func, ast.Name) and it.func.id == "range" and it.args:
+                loops.append((lp, lp.target.id, is_min_dims(it.args[-1] if len(it.args) <= 2 else it.args[1])))
+        for w in [x for x in ast.walk(f.node) if isinstance(x, ast.While)]:
+            for c in [x for x in ast.walk(w.test) if isinstance(x, ast.Compare) and len(x.ops) == 1 and isinstance(x.ops[0], ast.Lt) and isinstance(x.left, ast.Name)]:
+                loops.append((w, c.left.id, is_min_dims(c.comparators[0])))
+        col_loops = [(lp, v, mn) for (lp, v, mn) in loops if col_uses(v, lp)]
+        transposes = any(isinstance(x, ast.Attribute) and x.attr in ("T", "transpose") for x in ast.walk(f.node))
+        for (lp, v, mn) in col_loops:
+            if not mn:
+                rep.ok("K17b", 1, nontrivial=(fq, v), sample=f"{f.qualname}: column index `{v}` not cut at min(rows, cols)")
+                continue
+            others = [x for x in col_loops if x[0] is not lp and not x[2] and not any(x[0] is y for y in ast.walk(lp))]
+            if others or transposes:
+                raise AnalysisError(f"{pyfacts.where(f, lp)}: the column index `{v}` stops at min(rows, cols) but the function has further column loops / transposes the matrix: whether every column is examined cannot be decided")
+            rep.finding("K17b", f"{fq}:min-bound:{v}", f"{pyfacts.where(f, lp)}: `{v}` is used as column index ({ast.unparse(col_uses(v, lp)[0])}) and runs only up to min({', '.join(sorted(dims))}): for a matrix with more columns than rows the columns from the row count on are never examined, a pivot there is missed (e.g. the 1x3 matrix [0 0 1])")
+        if f.name == "rank":
+            for r in [x for x in ast.walk(f.node) if isinstance(x, ast.Return) and x.value is not None]:
+                diag = [c for c in ast.walk(r.value) if isinstance(c, ast.Call) and isinstance(c.func, ast.Attribute) and c.func.attr in ("trace", "diagonal", "diag")]
+                if diag:
+                    rep.finding("K17b", f"{fq}:diagonal", f"{pyfacts.where(f, r)}: the rank is read off the diagonal of the reduced matrix [{pyfacts.norm_stmt(r)}]: the pivots of a reduced row echelon form sit in the pivot columns, which are on the diagonal only for a leading identity block (the 1x2 matrix [0 1] has rank 1 and trace 0)")
+                else:
+                    rep.ok("K17b", 1, nontrivial=(fq, "return"), sample=f"rank: {pyfacts.norm_stmt(r)}")
+
+
 def K15_junk_characters(rep, flow: Flow):
     rep.rule("K15", "the Pauli-string parser rejects (raises on) every character that is not one of I, X, Y, Z - probed with the lower-case letters, digits, blanks and foreign letters, at the first, a middle and the last position of a generator - and a sign character anywhere but in front is never read as a Pauli; generators of different lengths are refused", floor=20, exhaustive=True)
     prog = flow.prog
@@ -592,13 +642,94 @@ def _k6_by_kernel_stub(rep, flow):
             rep.finding("K6", f"partial:raise:{ex.etype}", f"{ex.where or 'find_local_clifford_layer.py find_local_clifford_layer'}: raises {ex.etype} ({ex.msg[:80]}) for a set of 1 operator on 2 qubits (R, S of shape 2x1) - the search must also serve fewer operators than qubits")
             break
         _k6_judge(rep, 2, coef, cs, res, tag="partial set (1 operator on 2 qubits)")
+    # a qubit that NO operator touches (2 qubits, one operator X on qubit 0): the search may keep it in the linear system
+    # (kernel vectors of 8 coefficients) or leave it out (4 coefficients; it then gets some fixed Clifford) - either way
+    # the verdict on a kernel vector is "every block invertible", and the touched qubit's block is its combination
+    widths = []
+
+    def verdict_untouched(coef):
+        calls = []
+
+        def stub(*a, **k):
+            calls.append(1)
+            w = a[0].shape[1] if a and isinstance(a[0], Mat) and a[0].ndim == 2 else None
+            widths.append(w)
+            if w is None or w > len(coef):
+                raise consteval.Unsupported("kernel routine called with a matrix whose column count is not a coefficient width")
+            return Mat([list(coef[:w])], 2)
+        ce.stubs = {ns[0].fq: stub}
+        res = ce.call_func(f, [Mat([[1], [0]], 2), Mat.zeros((2, 1)), _graph(ce, prog, 2, [])], {})
+        if len(calls) != 1:
+            raise consteval.Unsupported("kernel routine not consulted exactly once on the untouched-qubit probe")
+        return res
+    try:
+        verdict_untouched((0,) * 8)
+        w = widths[-1]
+        if w not in (4, 8):
+            raise consteval.Unsupported(f"coefficient width {w} on the untouched-qubit probe")
+        for coef in itertools.product((0, 1), repeat=w):
+            try:
+                res = verdict_untouched(tuple(coef) + (0,) * (8 - w))
+            except CERaise as ex:
+                rep.finding("K6", f"untouched:raise:{ex.etype}", f"{ex.where or 'find_local_clifford_layer.py find_local_clifford_layer'}: raises {ex.etype} ({ex.msg[:80]}) for one operator X on qubit 0 of 2 qubits (qubit 1 untouched)")
+                break
+            if w == 8:
+                _k6_judge(rep, 2, coef, cs, res, tag="untouched qubit (X on qubit 0 of 2)")
+                continue
+            comb = [sum(coef[k] * cs[k][j] for k in range(4)) % 2 for j in range(4)]
+            det = (comb[0] * comb[3] - comb[1] * comb[2]) % 2
+            key = f"coef:untouched:{''.join(map(str, coef))}"
+            if res is None:
+                if det == 1:
+                    rep.finding("K6", key, f"find_local_clifford_layer.py find_local_clifford_layer: with qubit 1 untouched and left out of the linear system, the coefficient pattern {list(coef)} of qubit 0 combines to the invertible block {comb} but is rejected (a valid layer is missed: a filter still counts the left-out qubit)")
+                else:
+                    rep.ok("K6", 1, nontrivial=("untouched", coef))
+                continue
+            ok_shape = isinstance(res, (list, tuple)) and len(res) == 4 and all(isinstance(m_, Mat) and m_.shape == (2, 2) for m_ in res)
+            if not ok_shape:
+                rep.finding("K6", key, f"find_local_clifford_layer.py find_local_clifford_layer: untouched-qubit probe, pattern {list(coef)} returns {res!r}, not four 2x2 blocks")
+                continue
+            b0 = [res[j].d[0][0] % 2 for j in range(4)]
+            b1 = [res[j].d[1][1] % 2 for j in range(4)]
+            off = [res[j].d[a_][b_] for j in range(4) for a_ in range(2) for b_ in range(2) if a_ != b_]
+            if det != 1:
+                rep.finding("K6", key, f"find_local_clifford_layer.py find_local_clifford_layer: untouched-qubit probe, pattern {list(coef)} passes the filter but combines to the singular block {comb}")
+            elif b0 != comb or any(off) or (b1[0] * b1[3] - b1[1] * b1[2]) % 2 != 1:
+                rep.finding("K6", key, f"find_local_clifford_layer.py find_local_clifford_layer: untouched-qubit probe, pattern {list(coef)} returns block {b0} on qubit 0 (combination: {comb}), block {b1} on the untouched qubit, off-diagonal {off}")
+            else:
+                rep.ok("K6", 1, nontrivial=("untouched", coef), sample=f"untouched qubit left out: {list(coef)} -> {b0}, qubit 1 gets {b1}")
+    except consteval.Unsupported as ex:
+        rep.note(f"K6: untouched-qubit probe not decidable ({str(ex)[:120]})")
     rep.analysed["K6 form"] = f"whole-function evaluation with {ns[0].fq} stubbed ({ce.steps} evaluation steps)"
     flow._k6_stub = (cs, ce, f, ns[0].fq)
+
+
+def _k6_solve_dominates(flow):
+    """every layer the search returns comes out of the solved linear system: a `return <layer>` that control can reach
+    without passing the call of the kernel routine (a fast path for 'trivial' inputs) answers by other means, which the
+    rules on the filter and the span do not cover - no verdict rather than a pass"""
+    prog = flow.prog
+    f = prog.func(FLC)
+    body = f.node.body
+    solve_at = None
+    for k, st in enumerate(body):
+        if any(isinstance(c, ast.Call) and isinstance(c.func, (ast.Attribute, ast.Name)) and ast.unparse(c.func).split(".")[-1] == "null_space" for c in ast.walk(st)):
+            if isinstance(st, (ast.If, ast.For, ast.While, ast.Try, ast.With)):
+                raise AnalysisError(f"{pyfacts.where(f, st)}: the kernel routine is called under a condition / inside a loop: which answers come out of the linear system cannot be decided")
+            solve_at = k
+            break
+    if solve_at is None:
+        return      # solved in a helper: the stub evaluation decides whether it is consulted
+    for st in body[:solve_at]:
+        for r in [x for x in ast.walk(st) if isinstance(x, ast.Return)]:
+            if r.value is not None and not (isinstance(r.value, ast.Constant) and r.value.value is None):
+                raise AnalysisError(f"{pyfacts.where(f, r)}: a layer is returned before the linear system is solved [{pyfacts.norm_stmt(r)}]: this fast path answers without the kernel search, its correctness is outside the rules on filter and span (no verdict)")
 
 
 @raises_are_findings("K6")
 def K6_filter(rep, flow: Flow):
     rep.rule("K6", "validity filter of the layer search: over all 16 coefficient patterns of one qubit and all 256 of two qubits, a candidate is accepted exactly when every qubit's combination of basis blocks is invertible (a genuine single-qubit Clifford), and the returned blocks are those combinations at the right diagonal positions", floor=272, exhaustive=True)
+    _k6_solve_dominates(flow)
     try:
         _k6_by_kernel_stub(rep, flow)
         return
